@@ -946,6 +946,13 @@ impl<'a> WriteTxn<'a> {
         self.memtable = savepoint.memtable;
     }
 
+    /// True when `external_id` names a committed node or one created earlier in this
+    /// transaction.
+    pub fn external_id_in_use(&self, external_id: ExternalId) -> bool {
+        self.created_external_ids.contains(&external_id)
+            || self.engine.lookup_internal_id(external_id).is_some()
+    }
+
     pub fn create_node(
         &mut self,
         external_id: ExternalId,
